@@ -14,6 +14,8 @@ use std::time::Instant;
 
 pub const DEFAULT_SEED: u64 = 2026_1003;
 pub const PROPERTY: &str = "C20";
+/// Which build of the code under test this binary is (see Cargo.toml, profile `checked`).
+pub const BUILD_CONFIG: &str = if cfg!(debug_assertions) { "checked" } else { "release" };
 
 const FAULT_KINDS: [&str; 17] = [
     "W_ERR_TRANSIENT", "W_ERR_PERMANENT", "R_REORDER", "R_DROP", "R_UNKNOWN", "R_DUP", "R_ERR", "R_TRUNC",
@@ -28,6 +30,9 @@ pub enum AnyPlan {
     Event(Plan),
     /// byte-level medium (serde_json over FaultyWriter / FaultyReader)
     Json(JPlan),
+    /// several operations back to back on one thread: a multi-step history (state that a change
+    /// might keep between calls — a static, a thread_local — is carried from one to the next)
+    Session(Vec<AnyPlan>),
 }
 
 impl AnyPlan {
@@ -35,18 +40,21 @@ impl AnyPlan {
         match self {
             AnyPlan::Event(p) => &p.ty,
             AnyPlan::Json(p) => &p.ty,
+            AnyPlan::Session(v) => v.first().map(|p| p.ty()).unwrap_or(""),
         }
     }
     pub fn rfaults(&self) -> &[RFault] {
         match self {
             AnyPlan::Event(p) => &p.rfaults,
             AnyPlan::Json(p) => &p.rfaults,
+            AnyPlan::Session(_) => &[],
         }
     }
     pub fn lane(&self) -> &'static str {
         match self {
             AnyPlan::Event(_) => "event",
             AnyPlan::Json(_) => "json",
+            AnyPlan::Session(_) => "session",
         }
     }
 }
@@ -155,6 +163,8 @@ struct Agg {
     hashes: Option<Vec<(u64, u64)>>,
     lane_runs: [u64; 2],
     format_lossy: u64,
+    ops: u64,
+    sessions: u64,
 }
 
 impl Agg {
@@ -182,6 +192,8 @@ impl Agg {
             hashes: if keep_hashes { Some(Vec::new()) } else { None },
             lane_runs: [0; 2],
             format_lossy: 0,
+            ops: 0,
+            sessions: 0,
         }
     }
 
@@ -213,6 +225,8 @@ impl Agg {
         self.lane_runs[0] += o.lane_runs[0];
         self.lane_runs[1] += o.lane_runs[1];
         self.format_lossy += o.format_lossy;
+        self.ops += o.ops;
+        self.sessions += o.sessions;
         for (k, v) in o.failures {
             match self.failures.get(k) {
                 Some(cur) if cur.run <= v.run => {}
@@ -232,23 +246,51 @@ impl Agg {
         }
     }
 
-    fn record(&mut self, run: u64, e: &TypeEntry, ti: usize, n_types: usize, plan: &AnyPlan, o: &Outcome) {
+    /// Run-level bookkeeping: one run is one plan (a session of several operations is one run).
+    fn record_run(&mut self, run: u64, plan: &AnyPlan, r: &RunOut) {
         self.runs += 1;
+        if matches!(plan, AnyPlan::Session(_)) {
+            self.sessions += 1;
+        }
+        self.digest = self.digest.wrapping_add(mix64(run.wrapping_mul(0x9E37_79B9_7F4A_7C15) ^ r.log_hash));
+        if let Some(h) = self.hashes.as_mut() {
+            h.push((run, r.log_hash));
+        }
+        self.sigs.insert(r.sig);
+        if r.nontrivial {
+            self.sigs_nontrivial.insert(r.sig);
+        }
+        if let Some(h) = &r.harness_error {
+            self.harness_errors.push((run, h.clone()));
+            self.harness_errors.sort();
+            self.harness_errors.truncate(5);
+        }
+        if let Some(f) = &r.failure {
+            self.n_failures += 1;
+            match self.failures.get(f.assert_id) {
+                Some(cur) if cur.run <= run => {}
+                _ => {
+                    self.failures.insert(f.assert_id, FailRec { run, plan: plan.clone(), failure: f.clone() });
+                }
+            }
+        }
+    }
+
+    /// Operation-level bookkeeping (fault counters, probes, step counts).
+    fn record_op(&mut self, run: u64, e: &TypeEntry, ti: usize, n_types: usize, plan: &AnyPlan, o: &Outcome) {
+        self.ops += 1;
         let is_json = matches!(plan, AnyPlan::Json(_));
         self.lane_runs[is_json as usize] += 1;
         let keyed = match plan {
             AnyPlan::Event(p) => p.medium.keyed(),
-            AnyPlan::Json(_) => true,
+            _ => true,
         };
         let has_patch = match plan {
             AnyPlan::Event(p) => p.patch.is_some(),
             AnyPlan::Json(p) => p.patch.is_some(),
+            AnyPlan::Session(_) => false,
         };
         *self.per_family.entry(e.family).or_insert(0) += 1;
-        self.digest = self.digest.wrapping_add(mix64(run.wrapping_mul(0x9E37_79B9_7F4A_7C15) ^ o.log_hash));
-        if let Some(h) = self.hashes.as_mut() {
-            h.push((run, o.log_hash));
-        }
         self.wsteps += o.wsteps as u64;
         self.rsteps += o.rsteps as u64;
         match o.write_ok {
@@ -364,25 +406,19 @@ impl Agg {
         if nf == 0 && !has_patch && o.evaluated[assert_index("A1")] > 0 && o.failure.is_none() && o.read_ok == Some(true) {
             self.probes[P_TYPE + ti + if is_json { n_types } else { 0 }] += 1;
         }
-        self.sigs.insert(o.sig);
-        if o.nontrivial {
-            self.sigs_nontrivial.insert(o.sig);
-        }
-        if let Some(h) = &o.harness_error {
-            self.harness_errors.push((run, h.clone()));
-            self.harness_errors.sort();
-            self.harness_errors.truncate(5);
-        }
-        if let Some(f) = &o.failure {
-            self.n_failures += 1;
-            match self.failures.get(f.assert_id) {
-                Some(cur) if cur.run <= run => {}
-                _ => {
-                    self.failures.insert(f.assert_id, FailRec { run, plan: plan.clone(), failure: f.clone() });
-                }
-            }
-        }
     }
+}
+
+/// Result of one run (a single operation or a session).
+#[derive(Default)]
+pub struct RunOut {
+    /// (type index, operation plan, its outcome), in execution order
+    pub ops: Vec<(usize, AnyPlan, Outcome)>,
+    pub failure: Option<Failure>,
+    pub harness_error: Option<String>,
+    pub log_hash: u64,
+    pub sig: u64,
+    pub nontrivial: bool,
 }
 
 // ---- running ---------------------------------------------------------------------------------
@@ -414,6 +450,21 @@ impl Batch {
             AnyPlan::Event(self.sweep[r].clone())
         } else if r < self.sweep.len() + self.jsweep.len() {
             AnyPlan::Json(self.jsweep[r - self.sweep.len()].clone())
+        } else if run % 16 == 5 {
+            // a session: 2..=5 operations back to back on the same thread
+            let mut rng = crate::rng::Rng::from_seed_run(self.seed ^ 0x5E55_1014, run);
+            let n = 2 + rng.usize_below(4);
+            let ops = (0..n)
+                .map(|j| {
+                    let sub = run.wrapping_mul(8).wrapping_add(j as u64) ^ 0x8000_0000_0000_0000;
+                    if rng.chance(1, 4) {
+                        AnyPlan::Json(random_jplan(&self.reg, self.seed, sub))
+                    } else {
+                        AnyPlan::Event(random_plan(&self.reg, self.seed, sub))
+                    }
+                })
+                .collect();
+            AnyPlan::Session(ops)
         } else if run % 4 == 3 {
             AnyPlan::Json(random_jplan(&self.reg, self.seed, run))
         } else {
@@ -421,18 +472,72 @@ impl Batch {
         }
     }
 
-    pub fn run_any(&self, plan: &AnyPlan, opts: RunOpts) -> Option<(usize, Outcome)> {
-        let ti = self.type_index(plan.ty())?;
-        let e = &self.reg[ti];
-        Some((
-            ti,
-            match plan {
-                AnyPlan::Event(p) => (e.run)(p, opts),
-                AnyPlan::Json(p) => (e.run_json)(p, opts),
-            },
-        ))
+    fn run_op(&self, plan: &AnyPlan, opts: RunOpts, out: &mut RunOut) {
+        match plan {
+            AnyPlan::Session(ops) => {
+                for p in ops {
+                    self.run_op(p, opts, out);
+                }
+            }
+            AnyPlan::Event(p) => {
+                if let Some(ti) = self.type_index(&p.ty) {
+                    let o = (self.reg[ti].run)(p, opts);
+                    out.ops.push((ti, plan.clone(), o));
+                } else {
+                    out.harness_error = Some(format!("unknown type {}", p.ty));
+                }
+            }
+            AnyPlan::Json(p) => {
+                if let Some(ti) = self.type_index(&p.ty) {
+                    let o = (self.reg[ti].run_json)(p, opts);
+                    out.ops.push((ti, plan.clone(), o));
+                } else {
+                    out.harness_error = Some(format!("unknown type {}", p.ty));
+                }
+            }
+        }
     }
 
+    pub fn run_any(&self, plan: &AnyPlan, opts: RunOpts) -> RunOut {
+        let mut out = RunOut::default();
+        self.run_op(plan, opts, &mut out);
+        let n = out.ops.len();
+        let mut log = crate::rng::Fnv::default();
+        let mut sig = crate::rng::Fnv::default();
+        for (k, (_, _, o)) in out.ops.iter().enumerate() {
+            log.u64(o.log_hash);
+            sig.u64(o.sig);
+            out.nontrivial |= o.nontrivial;
+            if out.harness_error.is_none() {
+                out.harness_error = o.harness_error.clone();
+            }
+            if out.failure.is_none() {
+                if let Some(f) = &o.failure {
+                    out.failure = Some(if n > 1 {
+                        Failure { assert_id: f.assert_id, observed: format!("operation {} of {}: {}", k + 1, n, f.observed) }
+                    } else {
+                        f.clone()
+                    });
+                }
+            }
+        }
+        if n == 1 {
+            out.log_hash = out.ops[0].2.log_hash;
+            out.sig = out.ops[0].2.sig;
+        } else {
+            out.log_hash = log.finish();
+            out.sig = sig.finish();
+        }
+        out
+    }
+
+    fn fails_same(&self, plan: &AnyPlan, assert_id: &str) -> bool {
+        let r = self.run_any(plan, RunOpts::default());
+        r.harness_error.is_none() && r.failure.as_ref().map(|f| f.assert_id) == Some(assert_id)
+    }
+
+    /// Greedy shrink of any plan while the same assertion id keeps failing. Sessions first lose
+    /// operations, then each remaining operation is shrunk in place.
     pub fn shrink_any(&self, plan: &AnyPlan, assert_id: &str) -> (AnyPlan, u32) {
         match plan {
             AnyPlan::Event(p) => {
@@ -442,6 +547,54 @@ impl Batch {
             AnyPlan::Json(p) => {
                 let (q, n) = shrink_j(p, assert_id, &self.reg);
                 (AnyPlan::Json(q), n)
+            }
+            AnyPlan::Session(ops) => {
+                let mut cur = ops.clone();
+                let mut steps = 0;
+                'outer: loop {
+                    for i in 0..cur.len() {
+                        if cur.len() > 1 {
+                            let mut c = cur.clone();
+                            c.remove(i);
+                            if self.fails_same(&AnyPlan::Session(c.clone()), assert_id) {
+                                cur = c;
+                                steps += 1;
+                                continue 'outer;
+                            }
+                        }
+                    }
+                    break;
+                }
+                if cur.len() == 1 {
+                    let (q, n) = self.shrink_any(&cur[0], assert_id);
+                    return (q, steps + n);
+                }
+                // shrink each operation in place, judged by the whole session
+                let mut budget = 600;
+                'again: loop {
+                    for i in 0..cur.len() {
+                        let cands: Vec<AnyPlan> = match &cur[i] {
+                            AnyPlan::Event(p) => shrink_candidates(p, &self.reg).into_iter().map(AnyPlan::Event).collect(),
+                            AnyPlan::Json(p) => shrink_candidates_j(p, &self.reg).into_iter().map(AnyPlan::Json).collect(),
+                            AnyPlan::Session(_) => vec![],
+                        };
+                        for c in cands {
+                            if budget == 0 {
+                                break 'again;
+                            }
+                            budget -= 1;
+                            let mut t = cur.clone();
+                            t[i] = c;
+                            if self.fails_same(&AnyPlan::Session(t.clone()), assert_id) {
+                                cur = t;
+                                steps += 1;
+                                continue 'again;
+                            }
+                        }
+                    }
+                    break;
+                }
+                (AnyPlan::Session(cur), steps)
             }
         }
     }
@@ -468,11 +621,11 @@ impl Batch {
                             let b = (a + CHUNK).min(to);
                             for run in a..b {
                                 let plan = self.plan_for(run);
-                                let (ti, o) = match self.run_any(&plan, RunOpts::default()) {
-                                    Some(x) => x,
-                                    None => continue,
-                                };
-                                agg.record(run, &self.reg[ti], ti, self.reg.len(), &plan, &o);
+                                let r = self.run_any(&plan, RunOpts::default());
+                                for (ti, p, o) in &r.ops {
+                                    agg.record_op(run, &self.reg[*ti], *ti, self.reg.len(), p, o);
+                                }
+                                agg.record_run(run, &plan, &r);
                             }
                         }
                         agg
@@ -508,14 +661,11 @@ fn threads_from(args: &[String]) -> usize {
         .unwrap_or_else(|| std::thread::available_parallelism().map(|n| n.get()).unwrap_or(4))
 }
 
-fn trace_json(b: &Batch, plan: &AnyPlan) -> Value {
-    let o = match b.run_any(plan, RunOpts { trace: true }) {
-        Some((_, o)) => o,
-        None => return json!({"error": "unknown type"}),
-    };
+fn op_trace_json(plan: &AnyPlan, o: &Outcome) -> Value {
     let d = o.detail.clone().unwrap_or_default();
     json!({
         "lane": plan.lane(),
+        "type": plan.ty(),
         "value": d.value,
         "medium_holds": d.stored,
         "serialize_returned": d.write_result,
@@ -528,6 +678,19 @@ fn trace_json(b: &Batch, plan: &AnyPlan) -> Value {
         "assertions_evaluated": ASSERT_IDS.iter().enumerate().filter(|(i, _)| o.evaluated[*i] > 0).map(|(_, a)| *a).collect::<Vec<_>>(),
         "failure": o.failure.as_ref().map(|f| json!({"assert_id": f.assert_id, "observed": f.observed})),
     })
+}
+
+fn trace_json(b: &Batch, plan: &AnyPlan) -> Value {
+    let r = b.run_any(plan, RunOpts { trace: true });
+    if r.ops.len() == 1 {
+        op_trace_json(&r.ops[0].1, &r.ops[0].2)
+    } else {
+        json!({
+            "lane": "session",
+            "operations": r.ops.iter().map(|(_, p, o)| op_trace_json(p, o)).collect::<Vec<_>>(),
+            "failure": r.failure.as_ref().map(|f| json!({"assert_id": f.assert_id, "observed": f.observed})),
+        })
+    }
 }
 
 #[derive(serde::Deserialize)]
@@ -571,7 +734,7 @@ pub fn cmd_batch(args: &[String]) -> i32 {
     let default_runs: u64 = if tier == "thorough" { 60_000_000 } else { 400_000 };
     let random_runs: u64 = arg_val(args, "--runs").and_then(|s| s.parse().ok()).unwrap_or(default_runs);
 
-    println!("VERIF_SEED={} tier={} threads={}", seed, tier, threads);
+    println!("VERIF_SEED={} tier={} threads={} build_configuration={}", seed, tier, threads, BUILD_CONFIG);
     let b = Batch::new(seed);
     let total = b.sweep_len() + random_runs;
     println!("sweep_runs={} (event {} + bytes {}) random_runs={} types={}", b.sweep_len(), b.sweep.len(), b.jsweep.len(), random_runs, b.reg.len());
@@ -601,41 +764,71 @@ pub fn cmd_batch(args: &[String]) -> i32 {
                 continue;
             }
             let (small, steps) = b.shrink_any(&rec.plan, id);
-            let o = b.run_any(&small, RunOpts::default()).map(|x| x.1).unwrap_or_default();
+            let o = b.run_any(&small, RunOpts::default());
             let f = o.failure.clone().unwrap_or_else(|| rec.failure.clone());
-            let path = format!("{}/C20-{}-{}-{}.json", replay_dir, seed, rec.run, id);
-            let doc = json!({
-                "property": PROPERTY,
-                "lane": small.lane(),
-                "seed": seed,
-                "run": rec.run,
-                "assert_id": f.assert_id,
-                "observed": f.observed,
-                "plan": small,
-                "shrink_steps": steps,
-                "original_plan": rec.plan,
-                "original_observed": rec.failure.observed,
-                "trace": trace_json(&b, &small),
-                "how_to_replay": format!("/verif/check C20 --replay {}", path),
-            });
-            if let Err(err) = std::fs::write(&path, serde_json::to_string_pretty(&doc).unwrap()) {
-                println!("HARNESS-ERROR cannot write replay file {}: {}", path, err);
-                exit_code = 2;
-                continue;
-            }
+            let path = format!("{}/C20-{}-{}-{}-{}.json", replay_dir, BUILD_CONFIG, seed, rec.run, id);
+            let write_doc = |plan: &AnyPlan, f: &Failure, steps: u32| -> bool {
+                let doc = json!({
+                    "property": PROPERTY,
+                    "build_configuration": BUILD_CONFIG,
+                    "lane": plan.lane(),
+                    "seed": seed,
+                    "run": rec.run,
+                    "assert_id": f.assert_id,
+                    "observed": f.observed,
+                    "plan": plan,
+                    "shrink_steps": steps,
+                    "original_plan": rec.plan,
+                    "original_observed": rec.failure.observed,
+                    "trace": trace_json(&b, plan),
+                    "how_to_replay": format!("/verif/check C20 --replay {}", path),
+                });
+                std::fs::write(&path, serde_json::to_string_pretty(&doc).unwrap()).is_ok()
+            };
+            let replays = |extra: &[&str]| -> bool {
+                let exe = std::env::current_exe().unwrap();
+                let st = std::process::Command::new(exe).arg("replay").arg(&path).args(extra).output();
+                matches!(st, Ok(out) if out.status.code() == Some(1))
+            };
             // the minimised file must reproduce the same violation in a fresh process
-            let exe = std::env::current_exe().unwrap();
-            let st = std::process::Command::new(exe).arg("replay").arg(&path).arg("--expect-exact").output();
-            match st {
-                Ok(out) if out.status.code() == Some(1) => {
+            let mut confirmed: Option<(String, String)> = None;
+            if write_doc(&small, &f, steps) && replays(&["--expect-exact"]) {
+                confirmed = Some((small.ty().to_string(), f.observed.clone()));
+            } else if write_doc(&rec.plan, &rec.failure, 0) && replays(&["--expect-exact"]) {
+                // shrinking went astray (it should not): fall back to the plan as generated
+                confirmed = Some((rec.plan.ty().to_string(), rec.failure.observed.clone()));
+            } else {
+                // The failing run does not fail when executed alone in a fresh process: the code
+                // under test keeps state between calls. Replay the history instead: every run
+                // from 0 up to the failing one, in index order, on one thread.
+                let doc = json!({
+                    "property": PROPERTY,
+                    "build_configuration": BUILD_CONFIG,
+                    "lane": "history",
+                    "seed": seed,
+                    // the batch ran on several threads: which run trips over state left behind by
+                    // earlier calls depends on who ran what; sequentially it may be a later one
+                    "upto": total - 1,
+                    "failed_in_batch_at_run": rec.run,
+                    "assert_id": id,
+                    "observed": rec.failure.observed,
+                    "note": "the failing run passes when executed alone: the violation depends on calls made earlier in the same process; replay executes runs 0..=upto sequentially on one thread and reports the first run failing this assertion",
+                    "how_to_replay": format!("/verif/check C20 --replay {}", path),
+                });
+                if std::fs::write(&path, serde_json::to_string_pretty(&doc).unwrap()).is_ok() && replays(&[]) {
+                    confirmed = Some((rec.plan.ty().to_string(), format!("(history-dependent) {}", rec.failure.observed)));
+                }
+            }
+            match confirmed {
+                Some((ty, observed)) => {
                     violations += 1;
                     violation_lines.push(format!(
-                        "VIOLATION property={} replay={}  [{} on {} (run {}): {}]",
-                        PROPERTY, path, f.assert_id, small.ty(), rec.run, f.observed
+                        "VIOLATION property={} replay={}  [{} on {} (run {}, {} lane, {} build): {}]",
+                        PROPERTY, path, id, ty, rec.run, rec.plan.lane(), BUILD_CONFIG, observed
                     ));
                 }
-                other => {
-                    println!("HARNESS-ERROR replay of {} did not reproduce the failure: {:?}", path, other.map(|o| o.status));
+                None => {
+                    println!("HARNESS-ERROR run {} failed {} in the batch but neither its plan nor the sequential history reproduces it in a fresh process", rec.run, id);
                     exit_code = 2;
                 }
             }
@@ -697,6 +890,7 @@ pub fn cmd_batch(args: &[String]) -> i32 {
         "tier": tier,
         "seed": seed,
         "level": "fault_enumeration",
+        "build_configuration": BUILD_CONFIG,
         "wall_s": wall,
         "violations": violations,
         "coverage": {
@@ -779,6 +973,28 @@ pub fn cmd_replay(args: &[String]) -> i32 {
             return 2;
         }
     };
+    let want_id = doc["assert_id"].as_str().unwrap_or("").to_string();
+    let want_obs = doc["observed"].as_str().unwrap_or("").to_string();
+    if doc["lane"].as_str() == Some("history") {
+        let seed = doc["seed"].as_u64().unwrap_or(DEFAULT_SEED);
+        let upto = doc["upto"].as_u64().unwrap_or(0);
+        let b = Batch::new(seed);
+        for run in 0..=upto {
+            let plan = b.plan_for(run);
+            let r = b.run_any(&plan, RunOpts::default());
+            if let Some(f) = &r.failure {
+                if f.assert_id == want_id {
+                    println!("history replay: run {} of 0..={} fails {}: {}", run, upto, f.assert_id, f.observed);
+                    println!("{}", serde_json::to_string_pretty(&json!({"run": run, "plan": plan})).unwrap());
+                    println!("REPRODUCED assert={} (sequential history)", f.assert_id);
+                    println!("VIOLATION property={} replay={}", PROPERTY, path);
+                    return 1;
+                }
+            }
+        }
+        println!("NOT-REPRODUCED no run in 0..={} fails {} when executed sequentially on this tree", upto, want_id);
+        return if exact { 2 } else { 0 };
+    }
     let plan: AnyPlan = match serde_json::from_value(doc["plan"].clone()) {
         Ok(p) => p,
         Err(e) => {
@@ -786,16 +1002,10 @@ pub fn cmd_replay(args: &[String]) -> i32 {
             return 2;
         }
     };
-    let want_id = doc["assert_id"].as_str().unwrap_or("");
-    let want_obs = doc["observed"].as_str().unwrap_or("");
+    let want_id = want_id.as_str();
+    let want_obs = want_obs.as_str();
     let b = Batch::new(0);
-    let o = match b.run_any(&plan, RunOpts::default()) {
-        Some((_, o)) => o,
-        None => {
-            println!("HARNESS-ERROR unknown type {}", plan.ty());
-            return 2;
-        }
-    };
+    let o = b.run_any(&plan, RunOpts::default());
     println!("{}", serde_json::to_string_pretty(&trace_json(&b, &plan)).unwrap());
     if let Some(h) = o.harness_error {
         println!("HARNESS-ERROR {}", h);
